@@ -11,30 +11,30 @@ theorem C09_code_paths_tie :
     Generated.applySkipsOnToken = false ∧ Generated.applyIsPatch = false ∧ Generated.fixReinsertsValue = false := by
   decide
 
-variable {V : Type} [DecidableEq V]
+variable {V : Type} [DecidableEq V] {ra : Bool}
 
 /-- **self-quenching.** From a drained state, any number of further frames of any peers in any order
 without application writes sends nothing and changes nothing (the state stays drained). -/
 theorem C09_drained_stays_silent (x : Option V) (s : State V) (as : List (Act V)) (hc : Clean x s)
     (ha : ∀ a ∈ as, isWrite a = false) :
-    Clean x (run false replace s as) ∧ (run false replace s as).sent = s.sent :=
+    Clean x (run ra false replace s as) ∧ (run ra false replace s as).sent = s.sent :=
   clean_run_silent x s as hc ha
 
 /-- **no echo, the host writes.** In every reachable state no client has anything queued or in flight
 towards the host: applying a change from the network never makes a client originate a message. -/
 theorem C09_no_echo_host_epoch (s : State V) (as : List (Act V)) (hi : HInv s) (ha : ∀ a ∈ as, HostWrites a) :
-    ∀ c ∈ (run false replace s as).clients, c.up = [] ∧ c.p.queue = [] := by
+    ∀ c ∈ (run ra false replace s as).clients, c.up = [] ∧ c.p.queue = [] := by
   intro c hcm
-  have := (hinv_run s as hi ha).1.2.2.2 c hcm
+  have := (hinv_run (ra := ra) s as hi ha).1.2.2.2 c hcm
   exact ⟨this.1, this.2.1⟩
 
 /-- **no echo, client `w` writes.** The host never queues a change of its own and no reader client
 sends anything; the only traffic is writer → host and the host's relay to the others. -/
 theorem C09_no_echo_client_epoch (w : Nat) (s : State V) (as : List (Act V)) (y : Option V) (hi : CInvL w y s)
     (ha : ∀ a ∈ as, ClientWrites w a) :
-    (run false replace s as).host.queue = [] ∧
-      ∀ c ∈ (run false replace s as).clients, c.id ≠ w → c.up = [] ∧ c.p.queue = [] := by
-  have h := (cinvl_run w s as y hi ha).1
+    (run ra false replace s as).host.queue = [] ∧
+      ∀ c ∈ (run ra false replace s as).clients, c.id ≠ w → c.up = [] ∧ c.p.queue = [] := by
+  have h := (cinvl_run (ra := ra) w s as y hi ha).1
   refine ⟨h.2.1, fun c hcm hne => ?_⟩
   have := (h.2.2.2.2 c hcm).2 hne
   exact ⟨this.1, this.2.1⟩
@@ -43,7 +43,7 @@ theorem C09_no_echo_client_epoch (w : Nat) (s : State V) (as : List (Act V)) (y 
 `N · (number of application writes)` messages (`N` clients): each write costs at most one message per client. -/
 theorem C09_host_epoch_bounded (x : Option V) (s : State V) (as : List (Act V)) (hc : Clean x s)
     (ha : ∀ a ∈ as, HostWrites a) :
-    (run false replace s as).sent ≤ s.sent + s.clients.length * writes as :=
+    (run ra false replace s as).sent ≤ s.sent + s.clients.length * writes as :=
   host_epoch_bounded x s as hc ha
 
 /-- **bounded work, a client writes — partial.**  Proved: no echo (above) and silence once drained.
@@ -51,9 +51,9 @@ Missing: the numeric bound `sent ≤ sent₀ + N · writes` (one message up, at 
 theorem; the trace oracle enforces `messages ≤ writes × clients` on every run. -/
 theorem C09_client_epoch_quenches_partial (w : Nat) (x : Option V) (s : State V) (as more : List (Act V))
     (hn : (s.clients.map (·.id)).Nodup) (hw : ∃ c ∈ s.clients, c.id = w) (hc : Clean x s)
-    (ha : ∀ a ∈ as, ClientWrites w a) (hq : Quiescent (run false replace s as))
+    (ha : ∀ a ∈ as, ClientWrites w a) (hq : Quiescent (run ra false replace s as))
     (hm : ∀ a ∈ more, isWrite a = false) :
-    (run false replace (run false replace s as) more).sent = (run false replace s as).sent :=
+    (run ra false replace (run ra false replace s as) more).sent = (run ra false replace s as).sent :=
   (clean_run_silent _ _ more (client_epoch_converges w x s as hn hw hc ha hq) hm).2
 
 /-- non-vacuity: two writes to two clients cost four messages, and idle frames afterwards none -/
@@ -61,7 +61,7 @@ example :
     let s0 : State Nat := { clients := [{ id := 1 }, { id := 2 }] }
     let as : List (Act Nat) := [.writeH 1, .detectH, .reactH, .writeH 2, .detectH, .reactH, .pollC 1 2, .flushC 1,
       .flushC 1, .detectC 1, .reactC 1, .pollC 2 2, .flushC 2, .flushC 2, .detectC 2, .reactC 2, .pollH 1 5, .flushH]
-    (run false replace s0 as).sent = 4 := by decide
+    (run false false replace s0 as).sent = 4 := by decide
 
 end Props
 end BevySync
